@@ -808,6 +808,10 @@ macro_rules! interp {
             "extend_refs" => { let (r, q) = (reg($w[1]), reg($w[2]));
                 (exec(0, || { let (a, b) = two_mut(&mut $regs, r, q); a.extend(b.iter()); }),
                  exec(1, || { let (a, b) = two_mut(&mut $mirs, r, q); a.extend(b.iter().cloned()); })) }
+            // the same through an adaptor without an exact size (size_hint().0 == 0)
+            "extend_refs_f" => { let (r, q) = (reg($w[1]), reg($w[2]));
+                (exec(0, || { let (a, b) = two_mut(&mut $regs, r, q); a.extend(b.iter().filter(|_| true)); }),
+                 exec(1, || { let (a, b) = two_mut(&mut $mirs, r, q); a.extend(b.iter().filter(|_| true).cloned()); })) }
             _ => ("bad-op".to_string(), "bad-op".to_string()),
         }
     };
